@@ -379,12 +379,334 @@ def plan_variants(item, thorough, r, work):
     return spec, names
 
 
+# ------------------------------------------------------------------ judging
+class Judge:
+    """The compiled Lean checker; the Python mirror is the fallback oracle when the driver is unavailable."""
+
+    def __init__(self, ctx, lean_ok):
+        self.ctx = ctx
+        self.drv = common.Driver("drv_lex")
+        self.use_lean = lean_ok and self.drv.available()
+        self.disagree = []
+
+    def compare(self, pairs):
+        """pairs: [(lang, textA, textB)] -> list of None (accepted) or (line index, tokensA, tokensB)"""
+        if not pairs:
+            return []
+        res = []
+        py = []
+        for lang, a, b in pairs:
+            ta, tb = tok_text(py_tokens(lang, a)), tok_text(py_tokens(lang, b))
+            if ta == tb:
+                py.append(None)
+            else:
+                k = next((i for i, (x, y) in enumerate(zip(ta, tb)) if x != y), min(len(ta), len(tb)))
+                py.append((k, ta[k] if k < len(ta) else [], tb[k] if k < len(tb) else []))
+        if not self.use_lean:
+            return py
+        out = self.drv.run(["cmp %s %s %s" % (lang, common.enc(a), common.enc(b)) for lang, a, b in pairs])
+        for o, p, (lang, a, b) in zip(out, py, pairs):
+            if o == "same":
+                res.append(None)
+            else:
+                f = o.split(" ")
+                res.append((int(f[1]), common.decs(f[2]), common.decs(f[3])))
+            if (res[-1] is None) != (p is None) or (p is not None and res[-1][0] != p[0]):
+                self.disagree.append({"lang": lang, "lean": o[:200], "python": repr(p)[:200], "a": a[:400], "b": b[:400]})
+        return res
+
+
+def lexer_correspondence(ctx, lean_ok, file_texts, thorough):
+    """Python mirror vs Lean driver token digests: corpus cases, exhaustive short strings, random strings, real files."""
+    drv = common.Driver("drv_lex")
+    if not (lean_ok and drv.available()):
+        ctx.tie_broken("lexer-correspondence", "driver drv_lex not built")
+        return
+    r = common.rng("c16-lex")
+    cases = []
+    cpath = os.path.join(common.CORPUS, "c16.txt")
+    if os.path.exists(cpath):
+        for ln in open(cpath):
+            f = ln.rstrip("\n").split(" ")
+            if len(f) == 3 and f[0] == "lex":
+                cases.append((f[1], common.dec(f[2])))
+    alpha = {"c": "a/*\"'\\\n ;", "f": "a!&'\"\n ;x"}
+    n = 5 if thorough else 4
+    for lang in ("c", "f"):
+        for k in range(0, n + 1):
+            for t in itertools.product(alpha[lang], repeat=k):
+                cases.append((lang, "".join(t)))
+        for _ in range(4000 if thorough else 1000):
+            k = r.randrange(5, 60)
+            cases.append((lang, "".join(r.choice(alpha[lang] + "ab =\t(") for _ in range(k))))
+    nreal = 0
+    for lang, text in file_texts:
+        cases.append((lang, text))
+        nreal += 1
+    out = drv.run(["tok %s %s" % (lang, common.enc(t)) for lang, t in cases])
+    bad = []
+    for (lang, t), o in zip(cases, out):
+        d = digest(py_tokens(lang, t))
+        if d != o:
+            bad.append({"lang": lang, "text": t[:300], "lean": o, "python": d})
+        if len(t) > 3:
+            ctx.nontrivial(("lex", lang, hashlib.sha1(t.encode()).hexdigest()[:12]))
+    ctx.count(len(cases))
+    ctx.note("lexer_correspondence", {"cases": len(cases), "real_files": nreal, "disagreements": len(bad)})
+    if bad:
+        ctx.tie_broken("lexer-correspondence", bad[:5])
+    # isCommentText on comment shapes (ties the theorems' hypotheses to what the driver computes)
+    shapes = [("c", "// x\n", "1"), ("c", "/** a\n * b\n */\n", "1"), ("c", "\n", "1"), ("c", "int a;\n", "0"), ("c", "/* x\n", "0"),
+              ("f", "! x\n", "1"), ("f", "  !! y\n\n", "1"), ("f", "a = 1\n", "0"), ("f", "&\n", "0")]
+    got = drv.run(["blk %s %s" % (l, common.enc(t)) for l, t, _ in shapes])
+    if got != [e for _, _, e in shapes]:
+        ctx.tie_broken("isCommentText-shapes", list(zip(shapes, got)))
+
+
+# ------------------------------------------------------------------ compiler validation (thorough)
+def gcc_lines(path, cxx):
+    p = subprocess.run(["gcc", "-fpreprocessed", "-dD", "-E", "-P", "-x", "c++" if cxx else "c", path],
+                       stdout=subprocess.PIPE, stderr=subprocess.PIPE, text=True, timeout=120)
+    if p.returncode != 0:
+        return None
+    return ["".join(l.split()) for l in p.stdout.split("\n") if l.strip()]
+
+
+def validate_compilers(ctx, samples, work):
+    """samples: [(name, lang, text)].  C/C++: gcc's comment removal vs the model, line by line, ignoring blanks.
+    Fortran: the original file and the model's canonical text (comments and continuations removed) must have the
+    same gfortran parse tree."""
+    nc = nf = nf_skipped = 0
+    bad = []
+    vdir = os.path.join(work, "validate")
+    os.makedirs(vdir, exist_ok=True)
+    for name, lang, text in samples:
+        toks = tok_text(py_tokens(lang, text))      # the mirror is tied to the Lean model by lexer_correspondence
+        if lang == "c":
+            if "\\\n" in text:
+                continue      # gcc -fpreprocessed does not splice; the generator writes no splices
+            path = os.path.join(vdir, "s.cpp" if name.endswith(("pp", "xx")) else "s.c")
+            with open(path, "w") as f:
+                f.write(text)
+            g = gcc_lines(path, path.endswith("pp"))
+            if g is None:
+                continue
+            m = ["".join(l) for l in toks]
+            nc += 1
+            if g != m:
+                k = next((i for i, (x, y) in enumerate(zip(g, m)) if x != y), min(len(g), len(m)))
+                bad.append({"file": name, "line": k, "gcc": g[k:k + 1], "model": m[k:k + 1]})
+        else:
+            dumps = []
+            for tag, t in (("orig", text), ("canon", "\n".join(" ".join(l) for l in toks) + "\n")):
+                path = os.path.join(vdir, tag + ".f90")
+                with open(path, "w") as f:
+                    f.write(t)
+                p = subprocess.run(["gfortran", "-fsyntax-only", "-ffree-form", "-ffree-line-length-none", "-cpp",
+                                    "-fdump-fortran-original", "-J", vdir, path],
+                                   stdout=subprocess.PIPE, stderr=subprocess.PIPE, text=True, timeout=120)
+                dumps.append((p.returncode, p.stdout))
+            if dumps[0][0] != 0:
+                nf_skipped += 1      # needs modules of other files
+                continue
+            nf += 1
+            if dumps[0] != dumps[1]:
+                bad.append({"file": name, "gfortran": "parse trees of the original and of the comment-free text differ",
+                            "rc": [dumps[0][0], dumps[1][0]]})
+    ctx.note("compiler_validation", {"c_files": nc, "fortran_files": nf, "fortran_skipped_need_other_modules": nf_skipped,
+                                     "disagreements": len(bad)})
+    ctx.count(nc + nf)
+    if bad:
+        ctx.tie_broken("lexer-vs-compiler", bad[:5])
+
+
+# ------------------------------------------------------------------ corpus library cases
+def corpus_lib_cases():
+    res = []
+    cpath = os.path.join(common.CORPUS, "c16.txt")
+    if os.path.exists(cpath):
+        for ln in open(cpath):
+            if ln.startswith("lib "):
+                res.append(json.loads(ln[4:]))
+    return res
+
+
+def plan_corpus_case(case, work, idx):
+    y = shroudrun.write_yaml(work, "corpus%d.yaml" % idx, case["yaml"])
+    base = dict(debug=False, doxygen=False, show_splicer_comments=False, write_version=False)
+    variants, names = [], []
+    for v in [{"name": "base", "global": {}}] + case["variants"]:
+        spec = dict(base); spec.update(v.get("global", {}))
+        opts, wv = spec_cmdline(spec)
+        variants.append(dict(options=opts, write_version=wv, yaml_text=None))
+        names.append(v["name"])
+    lib = os.path.join(work, "corpus_%s" % case["label"])
+    for n, v in zip(names, variants):
+        v["outdir"] = os.path.join(lib, n)
+        os.makedirs(v["outdir"], exist_ok=True)
+    item = dict(label="corpus:" + case["label"], yaml=y, options=[], language=None, path=[work], text=case["yaml"])
+    return item, dict(yaml=y, language=None, options=[], path=[work], variants=variants), names
+
+
+def judge_library(ctx, judge, item, spec, names, excs, file_texts, samples):
+    trees = {n: shroudrun.read_tree(v["outdir"], skip_ext=SKIP_EXT) for n, v in zip(names, spec["variants"])}
+    label = item["label"]
+    pairs, meta = [], []
+    for n, v, exc in zip(names, spec["variants"], excs):
+        bname = "base-yaml" if n.startswith("decl") else "base"
+        if n == bname:
+            continue
+        base, t = trees[bname], trees[n]
+        bexc = excs[names.index(bname)]
+        ctx.count(1)
+        rp = {"library": label, "yaml": item["yaml"] if "text" not in item else None, "yaml_text": item.get("text"),
+              "options": item["options"], "language": item["language"], "variant": n,
+              "variant_options": v["options"], "write_version": v["write_version"], "decl_edits": v.get("edits"),
+              "base_options": spec["variants"][names.index(bname)]["options"]}
+        if (exc is None) != (bexc is None):
+            ctx.fail("%s:%s:<run>" % (n, label), "Shroud %s with variant %s but %s without (%s)" % (
+                "fails" if exc else "succeeds", n, "fails" if bexc else "succeeds", exc or bexc), rp)
+            continue
+        if set(t) != set(base):
+            d = sorted(set(t) ^ set(base))
+            ctx.fail("%s:%s:<fileset>:%s" % (n, label, d[0]), "variant %s of %s produces a different set of files: %s" % (n, label, d[:5]), rp)
+        ndiff = 0
+        for fn in sorted(set(t) & set(base)):
+            lang = lang_of(fn)
+            if lang is None or t[fn] == base[fn]:
+                continue
+            ndiff += 1
+            a, b = base[fn].decode("utf-8", "replace"), t[fn].decode("utf-8", "replace")
+            pairs.append((lang, a, b))
+            meta.append((n, fn, rp))
+        if ndiff:
+            ctx.nontrivial((label, n))
+    # a few real texts for the lexer correspondence / compiler validation
+    for n in ("base", "all", "decl-mix"):
+        if n in trees:
+            for fn, data in sorted(trees[n].items()):
+                lang = lang_of(fn)
+                if lang:
+                    samples.append(("%s/%s/%s" % (label, n, fn), lang, data.decode("utf-8", "replace")))
+    verdicts = judge.compare(pairs)
+    for (n, fn, rp), v, (lang, a, b) in zip(meta, verdicts, pairs):
+        if v is not None:
+            rp = dict(rp, file=fn, logical_line=v[0], tokens_base=v[1], tokens_variant=v[2])
+            ctx.fail("%s:%s:%s" % (n, label, fn),
+                     "tokens of %s differ between base and %s for %s: logical line %d: %s vs %s" % (
+                         fn, n, label, v[0], " ".join(v[1])[:120], " ".join(v[2])[:120]), rp)
+    return len(pairs)
+
+
 def run(ctx):
-    raise NotImplementedError
+    from tools import extract_guards
+    thorough = ctx.tier == "thorough"
+    r = common.rng("c16")
+    work = common.scratch()
+    try:
+        info = extract_guards.regenerate()
+        ctx.note("translator", {k: v for k, v in info.items() if k != "other"})
+        ctx.note("unclassified_guarded_sites", info["other"][:20])
+        ok = ctx.lean(MODULES, THEOREMS, extra_targets=("drv_lex",))
+        ctx.cov["trusted_base"] = [
+            "Lean 4.33.0 kernel; axioms within {propext, Classical.choice, Quot.sound}",
+            "lexical models Model/Lex.lean (validated against gcc/gfortran in the thorough tier, mirrored in Python on every run)",
+            "tools/extract_guards.py: AST classification of option-guarded statements and its allow-list (%d entries)" % (
+                len(extract_guards.ALLOW) + len(extract_guards.ALLOW_USE)),
+        ]
+        ctx.cov["rule"] = ("translation validation: corpus (quick %d, thorough all) + generated libraries x {single option on, all on, "
+                           "combinations, per-declaration debug/doxygen/literalinclude on all / a third / a random mix of the "
+                           "declarations}; every source file pair that differs in bytes is judged by the Lean checker; a (library, "
+                           "variant) is non-trivial when at least one source file differs in bytes from the all-off base; lexer "
+                           "correspondence: exhaustive strings up to length %d over a 9-10 symbol alphabet, random strings, real files"
+                           % (len(QUICK_LIBS), 5 if thorough else 4))
+        ctx.assumptions += [
+            "dynamic text spliced into comment templates (declaration text, statement names, splicer names) contains no newline",
+            "the generator emits no trigraphs, raw strings, splices outside comments, or Fortran continuation inside character context",
+            "which file pairs are judged is bounded by the libraries and option combinations produced",
+        ]
+        ctx.cov["theorems"] = ctx.cov.get("theorems", [])
+
+        judge = Judge(ctx, ok)
+        file_texts, samples = [], []
+        # ---------------- corpus cases first
+        jobs = []
+        for i, case in enumerate(corpus_lib_cases()):
+            item, spec, names = plan_corpus_case(case, work, i)
+            jobs.append((item, spec, names))
+        for item in library_items(thorough, r, work):
+            spec, names = plan_variants(item, thorough, r, work)
+            jobs.append((item, spec, names))
+        with ThreadPoolExecutor(12) as ex:
+            results = list(ex.map(lambda j: run_worker(j[1]), jobs))
+        npairs = 0
+        for (item, spec, names), excs in zip(jobs, results):
+            if excs[names.index("base")] is not None and all(e is not None for e in excs):
+                ctx.note("skipped:" + item["label"], excs[0])
+                continue
+            npairs += judge_library(ctx, judge, item, spec, names, excs, file_texts, samples)
+        ctx.note("judged_pairs", npairs)
+        ctx.note("libraries", [j[0]["label"] for j in jobs])
+        ctx.sample({"library": jobs[0][0]["label"], "variants": jobs[0][2][:8]})
+        if judge.disagree:
+            ctx.tie_broken("checker-vs-python-mirror", judge.disagree[:5])
+        if not judge.use_lean:
+            ctx.tie_broken("lean-checker-unavailable", "verdicts were computed by the Python mirror only")
+        # ---------------- lexer correspondence on strings + real files
+        seen, texts = set(), []
+        for name, lang, text in samples:
+            h = hashlib.sha1(text.encode()).digest()
+            if h not in seen:
+                seen.add(h)
+                texts.append((lang, text))
+        r.shuffle(texts)
+        lexer_correspondence(ctx, ok, texts[: (400 if thorough else 60)], thorough)
+        if thorough:
+            uniq, seen2 = [], set()
+            for name, lang, text in samples:
+                h = hashlib.sha1(text.encode()).digest()
+                if h not in seen2:
+                    seen2.add(h)
+                    uniq.append((name, lang, text))
+            r.shuffle(uniq)
+            validate_compilers(ctx, uniq[:250], work)
+    finally:
+        common.rmtree(work)
 
 
 def replay(path):
-    return 0
+    d = json.load(open(path))
+    rc = 0
+    for f in d.get("failing", []):
+        rp = f["replay"]
+        print(f["key"], "--", f["what"])
+        work = common.scratch()
+        try:
+            text = rp.get("yaml_text") or open(rp["yaml"]).read()
+            doc = __import__("yaml").safe_load(text)
+            edits = {tuple(int(x) for x in k.split(".")): v for k, v in (rp.get("decl_edits") or {}).items()}
+            y = shroudrun.write_yaml(work, "replay.yaml", text)
+            variants = [dict(options=rp["base_options"], write_version=False, yaml_text=None, outdir=os.path.join(work, "base")),
+                        dict(options=rp["variant_options"], write_version=rp["write_version"],
+                             yaml_text=dump_yaml(apply_decl_edits(doc, edits)) if edits else None,
+                             outdir=os.path.join(work, "variant"))]
+            for v in variants:
+                os.makedirs(v["outdir"])
+            excs = run_worker(dict(yaml=y, language=rp.get("language"), options=rp["options"],
+                                   path=[shroudrun.REG, os.path.dirname(rp["yaml"] or y)], variants=variants))
+            a, b = (shroudrun.read_tree(v["outdir"], skip_ext=SKIP_EXT) for v in variants)
+            print("  exceptions:", excs, " file sets equal:", set(a) == set(b))
+            for fn in sorted(set(a) & set(b)):
+                lang = lang_of(fn)
+                if lang and a[fn] != b[fn]:
+                    ta, tb = tok_text(py_tokens(lang, a[fn].decode())), tok_text(py_tokens(lang, b[fn].decode()))
+                    if ta != tb:
+                        k = next((i for i, (x, y2) in enumerate(zip(ta, tb)) if x != y2), min(len(ta), len(tb)))
+                        print("  %s: logical line %d: %s | %s" % (fn, k, ta[k:k + 1], tb[k:k + 1]))
+                        rc = 1
+        finally:
+            common.rmtree(work)
+    return rc
 
 
 if __name__ == "__main__":
